@@ -8,71 +8,10 @@ use cgmath::{
 };
 use serde_json::json;
 
-use crate::fw::{catch, Clause, Extra, RunCfg};
-use crate::gen::{Rng, Tier};
+use cgv_core::fw::{catch, Clause, Extra, RunCfg};
+use cgv_core::gen::{Rng, Tier};
 
-/// bit pattern of every component, in field order
-pub trait Bits {
-    fn bits(&self) -> Vec<u64>;
-}
-macro_rules! prim_bits {
-    ($($T:ty),*) => {$( impl Bits for $T { fn bits(&self) -> Vec<u64> { vec![*self as i128 as u64] } } )*};
-}
-prim_bits!(u8, u16, u32, u64, usize, i8, i16, i32, i64, isize);
-impl Bits for f32 {
-    fn bits(&self) -> Vec<u64> {
-        vec![self.to_bits() as u64]
-    }
-}
-impl Bits for f64 {
-    fn bits(&self) -> Vec<u64> {
-        vec![self.to_bits()]
-    }
-}
-macro_rules! comp_bits {
-    ($T:ident { $($f:ident),+ }) => {
-        impl<S: Bits> Bits for $T<S> {
-            fn bits(&self) -> Vec<u64> {
-                let mut v = vec![];
-                $( v.extend(self.$f.bits()); )+
-                v
-            }
-        }
-    };
-}
-comp_bits!(Vector1 { x });
-comp_bits!(Vector2 { x, y });
-comp_bits!(Vector3 { x, y, z });
-comp_bits!(Vector4 { x, y, z, w });
-comp_bits!(Point1 { x });
-comp_bits!(Point2 { x, y });
-comp_bits!(Point3 { x, y, z });
-comp_bits!(Matrix2 { x, y });
-comp_bits!(Matrix3 { x, y, z });
-comp_bits!(Matrix4 { x, y, z, w });
-comp_bits!(Quaternion { v, s });
-impl<S: Bits> Bits for Rad<S> {
-    fn bits(&self) -> Vec<u64> {
-        self.0.bits()
-    }
-}
-impl<S: Bits> Bits for Deg<S> {
-    fn bits(&self) -> Vec<u64> {
-        self.0.bits()
-    }
-}
-impl<S: Bits + cgmath::BaseFloat> Bits for Basis2<S> {
-    fn bits(&self) -> Vec<u64> {
-        let m: &Matrix2<S> = self.as_ref();
-        m.bits()
-    }
-}
-impl<S: Bits> Bits for Basis3<S> {
-    fn bits(&self) -> Vec<u64> {
-        let m: &Matrix3<S> = self.as_ref();
-        m.bits()
-    }
-}
+pub use cgv_core::bits::Bits;
 
 pub struct Rec {
     pub checks: u64,
@@ -309,7 +248,11 @@ fn float_forms<T: Fl>(rec: &mut Rec, rng: &mut Rng) {
     prods!("Matrix4", Matrix4<T>, Matrix4::from_value(T::r(rng)) + Matrix4::from_cols(a4, b4, a4, b4) * T::r(rng));
     prods!("Quaternion", Quaternion<T>, Quaternion::new(T::r(rng), T::r(rng), T::r(rng), T::r(rng)));
     prods!("Basis2", Basis2<T>, Basis2::from_angle(Rad(T::r(rng))));
-    prods!("Basis3", Basis3<T>, Basis3::from_angle_x(Rad(T::r(rng))));
+    prods!("Basis3", Basis3<T>, match rng.below(3) {
+        0 => Basis3::from_angle_x(Rad(T::r(rng))),
+        1 => Basis3::from_angle_y(Rad(T::r(rng))),
+        _ => Basis3::from_angle_z(Rad(T::r(rng))),
+    });
 }
 
 // integer vectors and points: the same spellings (no overflow, no division by zero)
